@@ -260,7 +260,7 @@ class RBFInterpolator(NNBase):
                     # dRp = -1.
                 elif self.rbf_family == 1:
                     frnt = 1.
-                    dRp_poly = [1., -2., 1., 0.]
+                    dRp_poly = [-1., 2., -1., 0.]
                     # dRp = -T * (1. - T) * (1. - T)
                 elif self.rbf_family == 2:
                     frnt = np.power(1. - T, 4.) / -20.
